@@ -120,6 +120,11 @@ def floatFromValue (parseF : String → Option Nat) (failMsg : String) (inj : Na
        match parseF digits with
        | some b => .ok (inj b)
        | none => .err (.leaf (.custom failMsg) [] (some l.span))
+   | .int digits _ =>
+       -- an integer literal denotes a number too: its digits go through the same parser
+       match parseF digits with
+       | some b => .ok (inj b)
+       | none => .err (.leaf (.custom failMsg) [] (some l.span))
    | _ => .err (Err.unexpectedLitType l)).mapErr (·.withSpan l.span)
 
 def floatHooks (parseF : String → Option Nat) (inj : Nat → α) : Hooks α :=
